@@ -85,6 +85,29 @@ theorem mapM_ni {α β} {f : α → M β} (hf : ∀ a, NI (f a)) : ∀ l : List 
 @[ni] theorem setOption_ni (n : Str) (v : PyVal) : NI (setOption n v) := by
   unfold setOption; ni_go
 
+/-- the callback put back after an option element is the one of the run it was read in: muted in the muted run -/
+@[ni] theorem setOptionInDocument_ni (n : Str) (v : PyVal) : NI (setOptionInDocument n v) := by
+  unfold setOptionInDocument
+  refine NI.get_bind_rel ?_
+  intro s
+  have h := setOption_ni n v s
+  simp only [Bind.bind, StateT.bind, StateT.run] at *
+  unfold Agree at h
+  cases h1 : setOption n v s with
+  | error e =>
+    cases h2 : setOption n v (mute s) with
+    | error e' => simp only [h1, h2] at h; simp only [Except.bind]; exact h
+    | ok r => simp only [h1, h2] at h
+  | ok r =>
+    obtain ⟨a, s1⟩ := r
+    cases h2 : setOption n v (mute s) with
+    | error e' => simp only [h1, h2] at h
+    | ok r' =>
+      obtain ⟨b, t1⟩ := r'
+      simp only [h1, h2] at h
+      obtain ⟨-, rfl⟩ := h
+      exact ⟨rfl, rfl⟩
+
 section
 variable (rec : Rec) (env : Env) (hs : ∀ x, NI (rec.spans x)) (hd : ∀ d x, NI (rec.document d x))
 include hs
@@ -121,6 +144,7 @@ theorem macroDefContentFilter_ni (text : Str) (mt : Match) (e : Expand) : NI (ma
 
 include hd
 
+set_option maxHeartbeats 1600000 in
 theorem renderBlockBody_ni (d : BlockDef) (mt : Match) (r : Reader) (w : Writer) : NI (renderBlockBody rec env d mt r w) := by
   have hr := replaceInline_ni rec env hs
   have hm := macroDefContentFilter_ni rec env hs
@@ -200,7 +224,7 @@ theorem documentLoop_ni : ∀ fuel r w, NI (documentLoop rec env fuel r w) := by
   | zero => intro r w; unfold documentLoop; ni_go
   | succ n ih => intro r w; unfold documentLoop; ni_go
 
-theorem documentRender_ni (fuel : Nat) (src : Str) (d : Nat) : NI (documentRender rec env fuel src d) := by
+theorem documentRender_ni (fuel : Nat) (src : Str) (d : Depth) : NI (documentRender rec env fuel src d) := by
   have h := documentLoop_ni rec env hs hd
   unfold documentRender; ni_go
 
